@@ -30,8 +30,8 @@ class C14(Prop):
         "release/reload instants are observed by polling the idle-release decorator's active-run set every 0.25 virtual seconds",
         "a process stop = cancellation of every task of that server at one virtual instant; the store survives",
     ]
-    budgets = {"quick": 500, "thorough": 3000}
-    wall = {"quick": 60.0, "thorough": 900.0}
+    budgets = {"quick": 300, "thorough": 3000}
+    wall = {"quick": 45.0, "thorough": 900.0}
 
     def setup(self):
         srv.M()
@@ -72,14 +72,19 @@ class C14(Prop):
 
                 async def monitor():
                     was = True
+                    seen_life = life
                     while True:
                         await asyncio.sleep(0.25)
                         lf = cur["life"]
                         if lf is None or lf.dead:
-                            was = True
                             continue
                         dec = lf.server._runtime._decorated
                         active = run_id in dec._active_run_ids
+                        if lf is not seen_life:
+                            # first sample of a new process life: a run that is simply not loaded (yet) was not "released" by it
+                            seen_life = lf
+                            was = active
+                            continue
                         if was and not active:
                             obs["released"].append(VClock.t)
                         if active and not was:
@@ -137,6 +142,22 @@ class C14(Prop):
         def pending_at(t):
             return sorted({k for a, b, k in pend if a < t <= b + 1e-6})  # a release at the very instant the timer is due still races it
 
+        # a release is legitimate only after idle_timeout seconds without any activity of the run
+        acts = sorted(
+            [e["t_in"] for e in log["work"]] + [e["t_out"] for e in log["work"] if e["t_out"] is not None]
+            + list(log.get("ask_in", [])) + [a["t"] for a in log.get("asked", [])] + [s_["t"] for s_ in log.get("start", [])]
+            + ([obs["restart"]] if obs["restart"] is not None else [])
+        )
+        early = []
+        if I is not None:
+            for t in obs["released"]:
+                before = [a for a in acts if a <= t - 0.25 + 1e-9]
+                last = max(before) if before else 0.0
+                # (a timer that really fired shows up as a body entry: the retried attempt or the resumed waiting step)
+                if (t - 0.25) - last < float(I) - 0.5 - 1e-9:
+                    early.append(round((t - 0.25) - last, 3))
+        if early:
+            r.v("run_released_before_idle_timeout_elapsed", idle_for=early[0], idle_timeout=I)
         rel_pending = sorted({k for t in obs["released"] for k in pending_at(t - 0.25)})  # the release happened at some instant of the last polling interval
         rst_pending = pending_at(obs["restart"]) if obs["restart"] is not None else []
         row = obs["row"] or {}
@@ -173,7 +194,7 @@ class C14(Prop):
             r.classes.append("has_timer")
         r.classes.append("status_" + str(row.get("status")))
         r.nontrivial = bool(rel_pending or rst_pending)
-        r.sample = {"case": dict(case, store=store_kind, idle_timeout=I, restart_at=restart_at), "released": obs["released"][:3], "restart": obs["restart"], "status": row.get("status")}
+        r.sample = {"case": dict(case, store=store_kind, idle_timeout=I, restart_at=restart_at), "released": obs["released"][:3], "reloaded": obs["reloaded"][:3], "restart": obs["restart"], "status": row.get("status"), "work": [[e["idx"], e["life"], e["t_in"], e["t_out"], e["exit"]] for e in log["work"]][:12]}
         return r
 
 
